@@ -496,4 +496,53 @@ def save (key : Tok → Tok) (ss : Sheet) (b : Book) : Saved :=
   let r := saveRows key b.cells c.1 (sortRows b.rows)
   { sheet := r.1, cols := c.2, rows := r.2.1, cells := r.2.2 }
 
+/-! ## the pattern-fill codec, concretely (`pattern_fill.rs` / `color.rs`: `write_to`, `set_attributes`)
+
+  The codecs are parameters of the interning theorems; this one component is also modelled concretely
+  because it was wrong: before fix 90daeac the reader stored `<fgColor>` through the public
+  `set_foreground_color`, whose `auto_set_pattern_type` turns patternType none (or unset) into solid.
+  After the fix the reader assigns the field; the public setter is unchanged.  Attribute values are
+  tokens (enumeration names, hex colours, decimal texts): they pass the XML layer unchanged. -/
+
+/-- `Color::write_to` writes no element at all when there is no attribute to write -/
+def Color.isBlank (c : Color) : Bool := c.theme.isNone && c.indexed.isNone && c.argb.isNone && c.tint.isNone
+
+/-- `Color::write_to` (one of `theme` / `indexed` / `rgb`, in this priority, and `tint`), then
+    `Color::set_attributes` -/
+def Color.norm (c : Color) : Color :=
+  if c.theme.isSome then { theme := c.theme, tint := c.tint }
+  else if c.indexed.isSome then { indexed := c.indexed, tint := c.tint }
+  else { argb := c.argb, tint := c.tint }
+
+/-- the colour child that comes back: none when nothing was written -/
+def Color.rt (c : Color) : Option Color := if c.isBlank then none else some c.norm
+
+/-- what `PatternFill::write_to` puts into the file: the `patternType` attribute when the enum has a
+    value, and the `fgColor` / `bgColor` children that have an attribute -/
+structure PatternFillXml where
+  patternType : Option Tok
+  fgColor : Option Color
+  bgColor : Option Color
+  deriving DecidableEq, Repr
+
+def PatternFill.write (p : PatternFill) : PatternFillXml :=
+  { patternType := p.patternType, fgColor := p.fg.bind Color.rt, bgColor := p.bg.bind Color.rt }
+
+/-- `PatternFill::set_attributes` after fix 90daeac: the attribute, then each colour child into its field -/
+def PatternFill.read (x : PatternFillXml) : PatternFill :=
+  { patternType := x.patternType, fg := x.fgColor, bg := x.bgColor }
+
+/-- `PatternFill::get_pattern_type`: an unset enum shows the default, `none` -/
+def PatternFill.effPattern (p : PatternFill) : Tok := p.patternType.getD "none".toList
+
+/-- the public `PatternFill::set_foreground_color` (unchanged by the fix): the colour, then
+    `auto_set_pattern_type` — pattern none with a foreground colour becomes solid (the other branch of
+    that function needs an absent foreground colour and cannot be taken here) -/
+def PatternFill.setForegroundColor (p : PatternFill) (c : Color) : PatternFill :=
+  if p.effPattern = "none".toList then { p with fg := some c, patternType := some "solid".toList }
+  else { p with fg := some c }
+
+/-- write, then read: the normalisation of the pattern-fill codec -/
+def PatternFill.norm (p : PatternFill) : PatternFill := PatternFill.read (PatternFill.write p)
+
 end Umya.Style
